@@ -350,7 +350,7 @@ func c03R5(c *Ctx) {
 	for _, cl := range Calls(replay) {
 		if cal := cl.Common().StaticCallee(); cal != nil && isBuilder(cal) && !InstrDominates(iter, cl) {
 			d := p.ReachCond(cl.Block())
-			okG := d.Implies(func(a *Atom) bool { return a.Rel == "" && a.Val && a.B.Kind == "field" && a.B.Field.Name() == "DisableMessagePersist" })
+			okG := d.Implies(func(a *Atom) bool { return a.Rel == "" && a.Val && a.B.Kind == "field" && cn(a.B.Field) == "DisableMessagePersist" })
 			a := cl.Common().Args
 			endO := p.Origin(a[len(a)-2])
 			okE := endO.Kind == "binop" && endO.Op == token.ADD && endO.X.Kind == "param" && endO.Y.IsConstInt(1)
@@ -371,7 +371,7 @@ func c03R6(c *Ctx) {
 			return false
 		}
 		cal := cl.Common().StaticCallee()
-		return cal != nil && strings.HasPrefix(cal.Name(), "extract")
+		return cal != nil && strings.HasPrefix(fnName(cal), "extract")
 	}
 	n := 0
 	for _, st := range p.FieldStores(fTrailer) {
@@ -407,7 +407,7 @@ func c03R6(c *Ctx) {
 		notHdr := d.Implies(func(a *Atom) bool { return a.Rel == "" && !a.Val && a.B.IsCallTo("isHeaderField") })
 		notTrl := d.Implies(func(a *Atom) bool { return a.Rel == "" && !a.Val && a.B.IsCallTo("isTrailerField") })
 		member := d.Implies(func(a *Atom) bool { return a.Rel == "" && a.Val && a.B.IsCallTo("isGroupMember") })
-		noBody := d.Implies(func(a *Atom) bool { return a.Rel == "" && !a.Val && a.B.Kind == "field" && a.B.Field.Name() == "foundBody" })
+		noBody := d.Implies(func(a *Atom) bool { return a.Rel == "" && !a.Val && a.B.Kind == "field" && cn(a.B.Field) == "foundBody" })
 		c.Check(notHdr && notTrl || member || noBody, name, p.InstrPos(st.Store), "body-end-mark", "end-of-body mark moved only over a body field / group member",
 			"the end-of-body mark (trailerBytes) is moved after extracting a field without knowing that it is a body field (reach "+d.String()+"): when a header or trailer field terminates a repeating group, CheckSum ends up inside bodyBytes and a replay built from them has two CheckSum fields and a wrong BodyLength")
 	}
